@@ -628,6 +628,7 @@ static void stage_porta(Case &c)
     static const int chunks[] = {32, 80, 200, 512, 1000};
     int chunk = rng.pick(chunks);
     long frames = 0, max_frames = rate * 60, reached_at = -1, steps = 0;
+    double reach_tolG = 0;
     double plo = std::min(p_src, p_dst), phi = std::max(p_src, p_dst);
     while(frames < max_frames && g_w.violations_in_case < 8)
     {
@@ -651,7 +652,17 @@ static void stage_porta(Case &c)
             prev = G; last_block = q.block(); last_fnum = q.fnum();
         }
         double err = fabs((double)last_fnum - ideal_fnum(p_dst, last_block, r.clock));
-        if(err <= FNUM_TOL) { if(reached_at < 0) reached_at = frames; if(frames - reached_at > rate / 2) break; }   // stay half a second more: must not leave the target
+        // arrival is declared in the F-number grid of the block in use; whether the pitch LEFT the target afterwards is judged in
+        // frequency units (fnum << block) against the widest tolerance arrival was declared with: the library may re-write the same
+        // frequency in a finer block (512 @ block 3 -> 1024 @ block 2) and go on with the last steps of the glide there
+        double errG = err * (double)(1u << last_block);
+        if(err <= FNUM_TOL)
+        {
+            if(reached_at < 0) reached_at = frames;
+            reach_tolG = std::max(reach_tolG, FNUM_TOL * (double)(1u << last_block));
+            if(frames - reached_at > rate / 2) break;   // stay half a second more: must not leave the target
+        }
+        else if(reached_at >= 0 && errG <= reach_tolG) { if(frames - reached_at > rate / 2) break; }
         else if(reached_at >= 0)
         {
             c.violation(vfmt("oracle:C10:portamento-left-target:%s", J.fam), vfmt("%s after reaching the target the pitch moved to block=%u fnum=%u", ctx.c_str(), last_block, last_fnum));
